@@ -39,24 +39,30 @@ func (mf *mergeFn) valueSourceKey(w *mwrite) string {
 		// ToOCI conversions and optional re-boxing do not change the item's value
 		return a.RootString() + "." + a.PathString()
 	}
+	// an element taken from a local collection is identified by what was inserted there (followed
+	// through collections built from collections: ociEnv from add from the plugin's list)
+	var resolve func(e ssa.Value, depth int) []string
+	resolve = func(e ssa.Value, depth int) []string {
+		if coll, _ := rangeOf(e); coll != nil && depth < 4 {
+			if ins, local := mf.insertions(coll); local && len(ins) > 0 {
+				var s []string
+				for _, i := range ins {
+					if i.elem != nil {
+						s = append(s, resolve(i.elem, depth+1)...)
+					}
+				}
+				return s
+			}
+		}
+		return []string{strip(m.ap(e))}
+	}
 	switch {
 	case w.kind == "mapupdate":
 		return "map[" + strip(m.ap(w.key)) + "]=" + strip(m.ap(w.val))
 	case w.isAppnd && len(w.elems) > 0:
 		var s []string
 		for _, e := range w.elems {
-			// an element of a local collection is identified by what was inserted there
-			if coll, _ := rangeOf(e); coll != nil {
-				if ins, local := mf.insertions(coll); local && len(ins) > 0 {
-					for _, i := range ins {
-						if i.elem != nil {
-							s = append(s, strip(m.ap(i.elem)))
-						}
-					}
-					continue
-				}
-			}
-			s = append(s, strip(m.ap(e)))
+			s = append(s, resolve(e, 0)...)
 		}
 		return "append:" + strings.Join(s, ",")
 	case w.isAppnd:
@@ -67,7 +73,7 @@ func (mf *mergeFn) valueSourceKey(w *mwrite) string {
 				var s []string
 				for _, i := range ins {
 					if i.elem != nil {
-						s = append(s, strip(m.ap(i.elem)))
+						s = append(s, resolve(i.elem, 1)...)
 					}
 				}
 				return "append:" + strings.Join(s, ",")
